@@ -29,7 +29,7 @@ CLASSES = ("constant", "two_valued", "bits2", "bits4", "bits8", "normal", "wide"
 
 def REQUIRED(tier):
     return ["histories:composition", "histories:merge", "histories:merge_of_merges", "class:constant", "class:wide", "class:outlier", "class:tiny",
-            "mode:basic", "mode:full", "constant_channel_checks", "single_sample_chunks", "canary_audits", "cross_partition_checks", "class:const_f64", "class:normal_f64", "histories:large_merge", "regime:merged_count_over_2^21", "histories:observed_mid_stream", "merge:augmented_assignment", "regime:chunks_of_thousands_of_samples", "histories:reused_chunk_buffer", "histories:after_refused_first_push", "histories:reader_windows", "regime:single_chunk_over_2^20_elements_nchans_not_power_of_two", "regime:one_level_repeated_over_2^16_times_in_a_chunk", "regime:merged_count_over_2^24"]
+            "mode:basic", "mode:full", "constant_channel_checks", "single_sample_chunks", "canary_audits", "cross_partition_checks", "class:const_f64", "class:normal_f64", "histories:large_merge", "regime:merged_count_over_2^21", "histories:observed_mid_stream", "merge:augmented_assignment", "regime:chunks_of_thousands_of_samples", "histories:reused_chunk_buffer", "histories:after_refused_first_push", "histories:reader_windows", "regime:single_chunk_over_2^20_elements_nchans_not_power_of_two", "regime:one_level_repeated_over_2^16_times_in_a_chunk", "regime:merged_count_over_2^24", "histories:accumulator_read_after_cleaning:channels_flagged"]
 
 
 def cases(tier, seed):
@@ -265,6 +265,22 @@ def _reader_windows(case, ctx):
             _check(ctx, c2, "reader_window_2", _stats(b, "full"), refmodels.moments_two_pass(x[k:]), x[k:], "full", ["window", k, n - k]) and \
             _check(ctx, c2, "reader_windows_merged", _stats(a + b, "full"), refmodels.moments_two_pass(x), x, "full", ["merge", k, n - k])
         if ok:
+            # the accumulator is then used by the RFI cleaner (which only reads it) and afterwards again by the caller
+            x2 = x.copy(); x2[:, 1] = np.where(np.arange(n) % 7 == 0, 255, x2[:, 1])      # one channel that the cleaner flags
+            p2 = os.path.join(d, "w2.fil")
+            sigfile.write_fil(p2, x2, 8, fch1=1500.0, foff=-1.0, tsamp=1e-3)
+            f2 = FilReader(p2)
+            f2.compute_stats(gulp=gulp, quiet=True, description="v")
+            before = _stats(f2.chan_stats, "full")
+            _, msk = f2.clean_rfi(method="mad", threshold=2.0, outfile_name=os.path.join(d, "w2_clean.fil"), gulp=gulp, quiet=True, description="v")
+            ctx.count("histories:accumulator_read_after_cleaning")
+            if np.any(np.asarray(msk.chan_mask)):
+                ctx.count("histories:accumulator_read_after_cleaning:channels_flagged")
+            after = _stats(f2.chan_stats, "full")
+            bad = [kk for kk in before if not np.array_equal(np.asarray(before[kk]), np.asarray(after[kk]), equal_nan=False)]
+            if bad:
+                ctx.violation("statistics-changed-by-cleaning", f"{bad} of the reader's accumulator differ after clean_rfi() (flagged channels {np.flatnonzero(np.asarray(msk.chan_mask)).tolist()}); finite before: True, finite after: {all(np.all(np.isfinite(np.asarray(after[kk], dtype=np.float64))) for kk in after)}", c2)
+                return
             ctx.nontrivial_case({"c": "reader_windows", "n": n, "k": k, "s": case["dseed"]})
     except Exception as exc:  # noqa: BLE001
         ctx.violation(f"raised:reader_windows:{type(exc).__name__}@{exc_site(exc)}", fmt_exc(exc), c2)
